@@ -280,6 +280,32 @@ def _files(ctx):
             ctx.evaluation("read-yaml-json", (json.dumps(cfg, sort_keys=True),), sample={"config": cfg}, n=4)
             if any(g != cfg for g in got):
                 ctx.violation("read_config:spellings-differ", f"YAML/JSON spellings of {cfg!r} load as {got!r}", f"file{i}", {"config": cfg})
+        # invalid configurations must be rejected on the file path too, whatever the spelling
+        from jsonschema.exceptions import ValidationError
+        bad_cfgs = [({"qha": {}}, "missing-elast"), ({"elast": {}}, "missing-qha"),
+                    ({"qha": {"settings": {"NT": 0}}, "elast": {}}, "NT=0"),
+                    ({"qha": {}, "elast": {"settings": {"symmetry": {"system": "cubicc"}}}}, "unknown-system"),
+                    ({"qha": {}, "elast": {"settings": {"mode_gamma": {"interpolator": "linear"}}}}, "unknown-interpolator"),
+                    ({"qha": {}, "elast": {"settings": {"foo": 1}}}, "unknown-key")]
+        for cfg, what in bad_cfgs:
+            for ext in ("json", "yaml", "yml"):
+                p = os.path.join(tmp, f"bad.{ext}")
+                with open(p, "w") as fp:
+                    json.dump(cfg, fp) if ext == "json" else yaml.safe_dump(cfg, fp)
+                ctx.evaluation("read-invalid-file", (what, ext), sample={"config": cfg, "suffix": ext, "expect": "ValidationError"})
+                try:
+                    read_config(p)
+                    ctx.violation(f"read_config:accepted-invalid:{ext}", f"{what} in a .{ext} file was accepted by read_config", f"badfile-{what}-{ext}", {"config": cfg})
+                except ValidationError:
+                    ctx.count("file_refusals")
+                except Exception as exc:
+                    ctx.violation(f"read_config:invalid-other-error:{type(exc).__name__}", exc_text(exc), f"badfile-{what}-{ext}")
+                try:
+                    if read_config(p, validate=False) != cfg:
+                        ctx.violation("read_config:validate-false-changes-content", f"{what}.{ext}", f"badfile-{what}-{ext}")
+                except Exception as exc:
+                    ctx.violation(f"read_config:validate-false-raises:{type(exc).__name__}", exc_text(exc), f"badfile-{what}-{ext}")
+        ctx.require("file_refusals", 6)
         # unsupported suffix must be refused
         p = os.path.join(tmp, "c.toml")
         open(p, "w").write("{}")
